@@ -425,6 +425,63 @@ def r5_case_folding_changes_only_letters(ctx, rule="C17.R5"):
     ctx.require(rule, 2)
 
 
+def r6_functions_leave_their_arguments_alone(ctx, rule="C17.R6"):
+    """The arguments of a built-in FUNCTION are variables of the call's context, and those that were
+    passed by reference are written back to the caller's variables when the call returns.  A function
+    that changes one of them changes the caller's variable: `LEFT$(s$, n)` must leave `s$` as it was, or
+    no law that mentions `s` twice holds.  Every mutable access to the context in a function reached from
+    an arm of the built-in function dispatcher must be the receiver of the result setter (the Context method
+    that takes the `BuiltInFunction` it stores the result for)."""
+    prog = ctx.prog
+    disp = [f for f in prog.fns.values() if f.crate == "rusty_basic" and f.kind == "fn" and f.body is not None
+            and any(s2.adt.endswith("::BuiltInFunction") and len(s2.arms) >= 15 for s2 in mir.enum_switches(prog, f.body))
+            and "built_ins" in f.id and "interpreter" in f.id]
+    if len(disp) != 1:
+        raise CheckError("%s: the dispatcher over BuiltInFunction was not found (%d candidates)" % (rule, len(disp)))
+    d = disp[0]
+    sw = [s2 for s2 in mir.enum_switches(prog, d.body) if s2.adt.endswith("::BuiltInFunction")][0]
+    n = 0
+    for v, tgt in sorted(sw.arms.items()):
+        region = mir.arm_region(d.body, sw.bb, tgt)
+        roots = [prog.fns[mir.callee_of(t)] for _b, t in mir.region_calls(d.body, region) if mir.callee_of(t) in prog.fns]
+        roots = [r for r in roots if r.crate == "rusty_basic" and "built_ins" in r.id]
+        seen, work = {}, list(roots)
+        while work:
+            f = work.pop()
+            if f.id in seen or f.body is None:
+                continue
+            seen[f.id] = f
+            for c in prog.call_edges(f):
+                g = prog.fns.get(c)
+                if g is not None and g.crate == "rusty_basic" and "built_ins" in g.id:
+                    work.append(g)
+        bad = []
+        muts = 0
+        for f in seen.values():
+            pv = mir.Prov(f.body)
+            for b, t in f.body.calls():
+                if not t["args"]:
+                    continue
+                o = mir.strip_refs(pv.of_operand(t["args"][0]))
+                if o[0] == "call" and o[1].split("::")[-1] in ("context_mut", "variables_mut"):
+                    muts += 1
+                    g = prog.fns.get(t.get("res") or mir.callee_of(t))
+                    is_setter = g is not None and g.body is not None and any(
+                        "BuiltInFunction" in g.body.locals[i]["ty"] for i in range(1, g.argc + 1))
+                    if not is_setter:
+                        bad.append("%s:%s %s" % (f.name, t.get("ln"), mir.callee_path(t).split("::")[-1]))
+        if not roots:
+            continue
+        n += 1
+        ctx.decide(not bad, rule, "%s:%s" % (rule, v), roots[0].loc,
+                   "%d mutable accesses to the context, all of them the result setter" % muts,
+                   "the built-in function %s writes to the variables of its call other than through the result setter (%s): "
+                   "an argument passed by reference is written back to the caller's variable when the call returns, so the "
+                   "function changes its argument" % (v, ", ".join(bad[:4])))
+    ctx.analysed_units(rule, functions=n)
+    ctx.require(rule, 20)
+
+
 def run(ctx):
     common.install(ctx)
     r1_accessors(ctx)
@@ -432,3 +489,4 @@ def run(ctx):
     r3_substring_ranges(ctx)
     r4_val_sign(ctx)
     r5_case_folding_changes_only_letters(ctx)
+    r6_functions_leave_their_arguments_alone(ctx)
